@@ -80,6 +80,47 @@ func init() {
 		}
 		out = append(out, [2]any{"uspec_parrot_ping_ranges", "list (Z * Z) := " + u.List(rs)})
 		out = append(out, [2]any{"uspec_parrot_builders", "list (Z * Z * Z * Z * Z * Z * Z) := " + u.List(bs)})
+		// the transport parameter list of every built-in QUICID, projected to what the reference
+		// fingerprinter's transport-parameter hash can see (id with GREASE folded to 27; the value
+		// only for the eleven ids it hashes) and sorted, so that the table does not depend on
+		// the per-spec random draws (GREASE id/value, shuffle, ChromeRandomInitialRTT);
+		// C11_builtin_qtp_features is stated over it. Order = parrotNames.
+		hashed := map[uint64]bool{1: true, 3: true, 4: true, 5: true, 6: true, 7: true, 8: true, 9: true, 10: true, 11: true, 14: true}
+		var tabs []string
+		for _, nm := range parrotNames {
+			sp, err := quic.QUICID2Spec(parrotIDs[nm])
+			if err != nil {
+				panic(err)
+			}
+			type pv struct {
+				id  uint64
+				val []byte
+			}
+			var l []pv
+			for _, tp := range fpSpecExt(&sp).TransportParameters {
+				id := tp.ID()
+				if fpIsGrease(id) {
+					id = 27
+				}
+				var v []byte
+				if hashed[id] {
+					v = tp.Value()
+				}
+				l = append(l, pv{id, v})
+			}
+			sort.SliceStable(l, func(i, j int) bool {
+				if l[i].id != l[j].id {
+					return l[i].id < l[j].id
+				}
+				return bytes.Compare(l[i].val, l[j].val) < 0
+			})
+			var es []string
+			for _, e := range l {
+				es = append(es, u.Pair(u.ZU(e.id), u.Hex(e.val)+"%string"))
+			}
+			tabs = append(tabs, u.List(es))
+		}
+		out = append(out, [2]any{"uspec_builtin_tp", "list (list (Z * string)) := " + u.List(tabs)})
 		return out
 	})
 }
@@ -447,8 +488,15 @@ func uIdsCase(o *uOut, r *u.Rng) {
 		o.fail("uspec/ids", fmt.Sprintf("a second call returns %v", again), detail)
 	}
 	afterTerm := uTerm(ps, ext.TransportParameters)
-	// what a fingerprinter canonicalising the wire sees
-	if body, err := uWireOf(ext); err != nil {
+	// the method is a query: the spec's own list stays as the caller wrote it
+	// (fixes/C11-transport-parameter-ids-on-a-copy.patch; before it the list was shortened for good)
+	if !uSamePtrs(ext.TransportParameters, in) {
+		o.fail("uspec/ids-mutates-spec", "QUICSpec.TransportParameterIDs() changed the spec's own parameter list", detail+" now="+afterTerm)
+	}
+	// what a fingerprinter canonicalising the wire of a dial under this suppression list sees
+	wext := &tls.QUICTransportParametersExtension{TransportParameters: append(tls.TransportParameters{}, in...)}
+	quic.SuppressQUICTransportParameters(wext, sup)
+	if body, err := uWireOf(wext); err != nil {
 		o.fail("uspec/wire-mismatch", "extension does not serialise: "+err.Error(), detail)
 	} else if wps, err := fpReadParams(body); err != nil {
 		o.fail("uspec/wire-mismatch", "serialised extension does not parse: "+err.Error(), detail+fmt.Sprintf(" bytes=%x", body))
